@@ -67,16 +67,30 @@ def effect_owners(ct: Container, rep, rule="effect-owners"):
 
 
 # ------------------------------------------------------------------------------------------------ rule 2,3
+_CFGS = {}
+
+
+def on_every_path(fn, stmt):
+    """stmt executes on every path from the function's entry to a normal return (CFG, normal edges)."""
+    from ..cfg import CFG
+    cfg = _CFGS.get(id(fn))
+    if cfg is None:
+        cfg = _CFGS[id(fn)] = CFG(fn, exc_edges=False)
+    n = cfg.node_of(stmt)
+    if n is None:
+        return False
+    return cfg.all_paths_pass(cfg.entry, cfg.exit, lambda x: x.id == n.id)
+
+
 def const_stores(fn, attr):
     """[(value constant or None, stmt, conditional?)] stores self.<attr> = <const> in fn."""
     out = []
-    top = set(id(s) for s in fn.body)
     for st in walk_no_nested(fn):
         if isinstance(st, (ast.Assign, ast.AnnAssign)):
             for t in (st.targets if isinstance(st, ast.Assign) else [st.target]):
                 if is_self_attr(t, attr):
                     v = st.value.value if isinstance(st.value, ast.Constant) else None
-                    out.append((v, st, id(st) not in top, isinstance(st.value, ast.Constant)))
+                    out.append((v, st, not on_every_path(fn, st), isinstance(st.value, ast.Constant)))
     return out
 
 
@@ -101,10 +115,9 @@ def handle_discipline(ct: Container, rep, rule="handle-discipline"):
     rep.floor(rule + "/handle-assign", n, 1)
     # __exit__: three unconditional statements
     ex = ct.prog.need_method(tdf, "__exit__")
-    body = [s for s in ex.node.body if not (isinstance(s, ast.Expr) and isinstance(s.value, ast.Constant))]
-    first_exit = next((i for i, s in enumerate(body) if isinstance(s, (ast.Return, ast.Raise))), len(body))
-    top = body[:first_exit]
     need = {"close": False, "mode": False, "inside": False}
+    top = [s for s in walk_no_nested(ex.node) if isinstance(s, ast.stmt) and s is not ex.node and not isinstance(s, ast.Try) and on_every_path(ex.node, s)]
+    top += [s for s in ex.node.body if isinstance(s, ast.Try)]
     for s in top:
         if isinstance(s, ast.Expr) and isinstance(s.value, ast.Call) and norm(s.value.func) == f"self.{ct.handle}.close":
             need["close"] = True
@@ -188,7 +201,6 @@ class Model:
         def effects(fname):
             f = prog.need_method(tdf, fname)
             out = {"mode": [], "inside": [], "open": None, "close": [], "f": f}
-            top = set(id(s) for s in f.node.body)
             for v, st, cond, is_const in const_stores(f.node, "_mode"):
                 out["mode"].append((v if is_const else "?", cond))
             for v, st, cond, is_const in const_stores(f.node, "_inside_context"):
@@ -198,9 +210,10 @@ class Model:
                     t = st.targets[0] if isinstance(st, ast.Assign) else st.target
                     if is_self_attr(t, ct.handle) and isinstance(st.value, ast.Call) and isinstance(st.value.func, ast.Attribute) and st.value.func.attr == "open":
                         a = st.value.args[0] if st.value.args else None
-                        out["open"] = ("field" if a is not None and norm(a) == "self._mode" else (a.value if isinstance(a, ast.Constant) else "?"), id(st) not in top)
+                        out["open"] = ("field" if a is not None and norm(a) == "self._mode" else (a.value if isinstance(a, ast.Constant) else "?"), not on_every_path(f.node, st))
                 if isinstance(st, ast.Expr) and isinstance(st.value, ast.Call) and norm(st.value.func) == f"self.{ct.handle}.close":
-                    out["close"].append(id(st) not in top)
+                    in_finally = any(isinstance(t, ast.Try) and any(x is st for b in t.finalbody for x in ast.walk(b)) for t in f.node.body)
+                    out["close"].append(not (on_every_path(f.node, st) or in_finally))
             return out
 
         self.init = effects("__init__")
@@ -468,6 +481,7 @@ def run(prog, rep):
     self_check()
     ct = Container(prog)
     cd = Codecs(prog)
+    cd.flag_errors(rep)
     rep.explanation = (
         "effect-owners (who-may-write over the whole package, zero matches expected outside add_block/remove_block/new/copy, "
         "embedded positive example); handle-discipline (handle assigned only by file_path.open(self._mode) in __enter__; __exit__ "
@@ -477,11 +491,11 @@ def run(prog, rep):
         "guards of every mutator are evaluated: a file effect must be reachable only with an open read-write handle inside a "
         "context entered after allow_write(); reader-purity over the call-graph closure of every public reader and every decoder."
     )
-    effect_owners(ct, rep)
-    handle_discipline(ct, rep)
-    mode_lifecycle(ct, rep)
-    model, states = guard_table(ct, rep)
-    reader_purity(ct, cd, rep)
+    rep.attempt(effect_owners, ct, rep)
+    rep.attempt(handle_discipline, ct, rep)
+    rep.attempt(mode_lifecycle, ct, rep)
+    rep.attempt(guard_table, ct, rep)
+    rep.attempt(reader_purity, ct, cd, rep)
     rep.note("raise_if_outside_write_context tests `not inside and mode != 'r+b'` (and, not or): allow_write() without a context passes the guard; "
              "what refuses those calls is the closed / never-opened handle, which the typestate rule credits")
     rep.trusted += ["file objects opened 'rb' refuse writes; closed file objects refuse every operation"]
